@@ -175,6 +175,98 @@ class TableExtractor:
         raise AnalysisError(f'escape(): output `{unparse(a)}` outside the template vocabulary')
 
 
+def table_by_interpretation(ctx):
+    """The decision table of escape() obtained by interpreting it (sa.interp) on `prefix + c + suffix` for representatives of
+    every code-point interval on which its behaviour can differ: escape() can only distinguish code points through
+    comparisons with integer (or one-character string) constants, so every such constant occurring anywhere in the module
+    is taken as a boundary; all code points below U+0100 are enumerated one by one.  Returns (table, special_tpl, dash)."""
+    from ..interp import Raised, call_function
+    from ..miniev import Unsupported
+    src = ctx.src
+    mod = src.mod('css_parser')
+    cuts = {0, MAXCP}
+    for n in ast.walk(mod.tree):
+        if isinstance(n, ast.Constant):
+            v = n.value
+            if isinstance(v, bool):
+                continue
+            if isinstance(v, int) and 0 <= v < MAXCP:
+                cuts.update((v, v + 1))
+            elif isinstance(v, str) and len(v) == 1:
+                cuts.update((ord(v), ord(v) + 1))
+    cuts.update(range(0, 0x101))
+    cuts.update((0xD800, 0xE000, 0x10000))
+    pts = sorted(c for c in cuts if 0 <= c <= MAXCP)
+    intervals = [(a, b) for a, b in zip(pts, pts[1:]) if a < b]
+
+    def esc(text):
+        try:
+            return call_function(ctx, 'css_parser.escape', [text], {}, {}, None)
+        except Raised as e:
+            return ('raises', e.exc_name)
+        except Unsupported as e:
+            raise AnalysisError(f'escape(): outside the evaluable fragment: {e}')
+    if esc('zz') != 'zz' or esc('zzz') != 'zzz':
+        raise AnalysisError('escape(): the probe character "z" is not passed through unchanged (the probing scheme does not apply)')
+    dash = '-'
+    out_dash = esc('-zz')
+    if not isinstance(out_dash, str) or not out_dash.endswith('zz'):
+        raise AnalysisError(f'escape("-zz") = {out_dash!r}: probing scheme does not apply')
+    dash_piece = out_dash[:-2]
+
+    def piece(sd, index, cp):
+        ch = chr(cp)
+        if index == 0:
+            o = esc(ch + 'zz')
+            cut = (0, 2)
+        elif index == 1:
+            o = esc((dash if sd else 'z') + ch + 'z')
+            cut = (len(dash_piece) if sd else 1, 1)
+        else:
+            o = esc((dash if sd else 'z') + 'z' + ch + 'z')
+            cut = ((len(dash_piece) if sd else 1) + 1, 1)
+        if not isinstance(o, str):
+            return o
+        return o[cut[0]:len(o) - cut[1]]
+
+    def kind(cp, o):
+        ch = chr(cp)
+        if not isinstance(o, str):
+            return ('raises', o[1])
+        if o == ch:
+            return (('chr',),)
+        if o == '\\' + ch:
+            return (('lit', '\\'), ('chr',))
+        if o.lower() == '\\%x ' % cp:
+            return (('lit', '\\'), ('hex',), ('lit', ' '))
+        return (('lit', o),)
+    table = {}
+    for sd in (False, True):
+        for index in (0, 1, 2):
+            rows = {}
+            for a, b in intervals:
+                if index == 0 and ((a <= ord(dash) < b) != sd):
+                    continue
+                reps = sorted({a, b - 1, (a + b) // 2})
+                ks = {kind(cp, piece(sd, index, cp)) for cp in reps}
+                if len(ks) != 1:
+                    raise AnalysisError(f'escape(): code points U+{a:04X}..U+{b - 1:04X} are not treated uniformly ({sorted(map(str, ks))[:2]}) '
+                                        'although no constant of the module separates them')
+                k = ks.pop()
+                if k[0] == 'raises':
+                    raise AnalysisError(f'escape() raises {k[1]} for U+{a:04X} (index {index}, start_dash={sd})')
+                rows.setdefault(k, []).append((a, b))
+            table[(sd, index)] = [(CS.norm(iv), [tuple(t) for t in k]) for k, iv in rows.items()]
+    special = esc('-')
+    if special == '\\-':
+        special_tpl = [('lit', '\\'), ('chr',)]
+    elif isinstance(special, str):
+        special_tpl = [('lit', special)]
+    else:
+        raise AnalysisError(f'escape("-") raises {special[1]}')
+    return table, special_tpl, dash
+
+
 def branches(ifn: ast.If):
     out = []
     while True:
@@ -207,96 +299,142 @@ def run(ctx, report: Report) -> None:
 
     # ---- R1: locate the structure -------------------------------------------------------------------------
     r1 = report.rule('C10-R1', 'escape() decision table extracted symbolically', floor=10)
-    loop = None
-    for n in walk_no_nested(fn):
-        if isinstance(n, ast.For) and isinstance(n.iter, ast.Call) and call_name(n.iter) == 'enumerate' \
-                and isinstance(n.target, ast.Tuple) and len(n.target.elts) == 2:
-            loop = n
-    if loop is None:
-        raise AnalysisError('escape(): per-character loop `for index, c in enumerate(ident)` not found')
-    tx.idx_var, tx.ch_var = (e.id for e in loop.target.elts)
-    for st in loop.body:
-        if isinstance(st, ast.Assign) and isinstance(st.value, ast.Call) and call_name(st.value) == 'ord' \
-                and isinstance(st.targets[0], ast.Name):
-            tx.cp_var = st.targets[0].id
-    chain = [st for st in loop.body if isinstance(st, ast.If)]
-    others = []
-    for st in loop.body:
-        if isinstance(st, ast.If) or (isinstance(st, ast.Assign) and isinstance(st.value, ast.Call) and call_name(st.value) == 'ord'):
-            continue
-        if isinstance(st, ast.Assign) and len(st.targets) == 1 and isinstance(st.targets[0], ast.Name) and chain \
-                and st.lineno < chain[0].lineno and st.targets[0].id not in tx.locals \
-                and isinstance(st.value, (ast.Compare, ast.BoolOp, ast.UnaryOp)):
-            tx.locals[st.targets[0].id] = st.value          # a named condition, evaluated where it is used
-            continue
-        others.append(st)
-    if tx.cp_var is None or len(chain) != 1 or others:
-        raise AnalysisError('escape(): loop body is not `codepoint = ord(c)`, named conditions and one if/elif chain')
-    chain = chain[0]
-    # start_dash = <...> ident[0] == '-'
-    for st in fn.body:
-        if isinstance(st, ast.Assign) and isinstance(st.targets[0], ast.Name):
-            for c in ast.walk(st.value):
-                if isinstance(c, ast.Compare) and isinstance(c.left, ast.Subscript) and unparse(c.left) == f'{tx.param}[0]' \
-                        and isinstance(c.ops[0], ast.Eq) and isinstance(c.comparators[0], ast.Constant):
-                    tx.sd_var = st.targets[0].id
-                    tx.dash = c.comparators[0].value
-            if isinstance(st.value, ast.Call) and call_name(st.value) == 'len':
-                tx.len_var = st.targets[0].id
-    # verbatim fast paths: `if REGEX.match(ident): return ident` before the table
-    fast = []
-    body_ifs = []
-    for st in fn.body:
-        if isinstance(st, ast.If) and not st.orelse and len(st.body) == 1 and isinstance(st.body[0], ast.Return) \
-                and isinstance(st.body[0].value, ast.Name) and st.body[0].value.id == tx.param \
-                and isinstance(st.test, ast.Call) and isinstance(st.test.func, ast.Attribute) \
-                and st.test.func.attr in ('match', 'fullmatch') and isinstance(st.test.func.value, ast.Name) \
-                and len(st.test.args) == 1 and unparse(st.test.args[0]) == tx.param \
-                and inv.find(f'css_parser.{st.test.func.value.id}') is not None:
-            fast.append((st, inv.find(f'css_parser.{st.test.func.value.id}'), st.test.func.attr))
-        elif isinstance(st, ast.If):
-            body_ifs.append(st)
-    top_if = body_ifs
-    early = len(top_if) == 1 and not top_if[0].orelse and loop in fn.body and len(top_if[0].body) == 1 \
-        and isinstance(top_if[0].body[0], ast.Return) and fn.body.index(top_if[0]) < fn.body.index(loop)
-    if tx.sd_var is None or len(top_if) != 1 or not (early or loop in top_if[0].orelse):
-        raise AnalysisError('escape(): single-dash special case / start_dash definition not found')
-    top_if = top_if[0]
-    if unparse(top_if.test) not in (f'{tx.len_var} == 1 and {tx.sd_var}', f'{tx.sd_var} and {tx.len_var} == 1'):
-        raise AnalysisError(f'escape(): special case `{unparse(top_if.test)}` outside the model')
-    if early:
-        # `return f'\\{ident}'` - the same output vocabulary as an append
-        special_call = ast.Call(func=ast.Attribute(value=ast.Name(id='_', ctx=ast.Load()), attr='append', ctx=ast.Load()),
-                                args=[top_if.body[0].value], keywords=[])
+    def symbolic():
+        loop = None
+        for n in walk_no_nested(fn):
+            if isinstance(n, ast.For) and isinstance(n.iter, ast.Call) and call_name(n.iter) == 'enumerate' \
+                    and isinstance(n.target, ast.Tuple) and len(n.target.elts) == 2:
+                loop = n
+        if loop is None:
+            raise AnalysisError('escape(): per-character loop `for index, c in enumerate(ident)` not found')
+        tx.idx_var, tx.ch_var = (e.id for e in loop.target.elts)
+        for st in loop.body:
+            if isinstance(st, ast.Assign) and isinstance(st.value, ast.Call) and call_name(st.value) == 'ord' \
+                    and isinstance(st.targets[0], ast.Name):
+                tx.cp_var = st.targets[0].id
+        chain = [st for st in loop.body if isinstance(st, ast.If)]
+        others = []
+        for st in loop.body:
+            if isinstance(st, ast.If) or (isinstance(st, ast.Assign) and isinstance(st.value, ast.Call) and call_name(st.value) == 'ord'):
+                continue
+            if isinstance(st, ast.Assign) and len(st.targets) == 1 and isinstance(st.targets[0], ast.Name) and chain \
+                    and st.lineno < chain[0].lineno and st.targets[0].id not in tx.locals \
+                    and isinstance(st.value, (ast.Compare, ast.BoolOp, ast.UnaryOp)):
+                tx.locals[st.targets[0].id] = st.value          # a named condition, evaluated where it is used
+                continue
+            others.append(st)
+        if tx.cp_var is None or len(chain) != 1 or others:
+            raise AnalysisError('escape(): loop body is not `codepoint = ord(c)`, named conditions and one if/elif chain')
+        chain = chain[0]
+        # start_dash = <...> ident[0] == '-'
+        for st in fn.body:
+            if isinstance(st, ast.Assign) and isinstance(st.targets[0], ast.Name):
+                for c in ast.walk(st.value):
+                    if isinstance(c, ast.Compare) and isinstance(c.left, ast.Subscript) and unparse(c.left) == f'{tx.param}[0]' \
+                            and isinstance(c.ops[0], ast.Eq) and isinstance(c.comparators[0], ast.Constant):
+                        tx.sd_var = st.targets[0].id
+                        tx.dash = c.comparators[0].value
+                if isinstance(st.value, ast.Call) and call_name(st.value) == 'len':
+                    tx.len_var = st.targets[0].id
+        # verbatim fast paths: `if REGEX.match(ident): return ident` before the table
+        fast = []
+        body_ifs = []
+        for st in fn.body:
+            if isinstance(st, ast.If) and not st.orelse and len(st.body) == 1 and isinstance(st.body[0], ast.Return) \
+                    and isinstance(st.body[0].value, ast.Name) and st.body[0].value.id == tx.param \
+                    and isinstance(st.test, ast.Call) and isinstance(st.test.func, ast.Attribute) \
+                    and st.test.func.attr in ('match', 'fullmatch') and isinstance(st.test.func.value, ast.Name) \
+                    and len(st.test.args) == 1 and unparse(st.test.args[0]) == tx.param \
+                    and inv.find(f'css_parser.{st.test.func.value.id}') is not None:
+                fast.append((st, inv.find(f'css_parser.{st.test.func.value.id}'), st.test.func.attr))
+            elif isinstance(st, ast.If):
+                body_ifs.append(st)
+        top_if = body_ifs
+        early = len(top_if) == 1 and not top_if[0].orelse and loop in fn.body and len(top_if[0].body) == 1 \
+            and isinstance(top_if[0].body[0], ast.Return) and fn.body.index(top_if[0]) < fn.body.index(loop)
+        if tx.sd_var is None or len(top_if) != 1 or not (early or loop in top_if[0].orelse):
+            raise AnalysisError('escape(): single-dash special case / start_dash definition not found')
+        top_if = top_if[0]
+        if unparse(top_if.test) not in (f'{tx.len_var} == 1 and {tx.sd_var}', f'{tx.sd_var} and {tx.len_var} == 1'):
+            raise AnalysisError(f'escape(): special case `{unparse(top_if.test)}` outside the model')
+        if early:
+            # `return f'\\{ident}'` - the same output vocabulary as an append
+            special_call = ast.Call(func=ast.Attribute(value=ast.Name(id='_', ctx=ast.Load()), attr='append', ctx=ast.Load()),
+                                    args=[top_if.body[0].value], keywords=[])
+        else:
+            if len(top_if.body) != 1 or not isinstance(top_if.body[0], ast.Expr):
+                raise AnalysisError('escape(): special-case body outside the model')
+            special_call = top_if.body[0].value
+        special_tpl = tx.template(special_call)
+        dash = ord(tx.dash)
+        # any other statement in the function must be initialisation or the final join
+        table = {}
+        for sd in (False, True):
+            for index in (0, 1, 2):
+                dom = ALL
+                if index == 0:
+                    dom = CS.of(dash) if sd else ALL - CS.of(dash)
+                rest = dom
+                rows = []
+                for test, body in branches(chain):
+                    s = rest if test is None else tx.ev(test, index, sd, rest)
+                    rest = rest - s
+                    if len(body) != 1 or not isinstance(body[0], ast.Expr) or not isinstance(body[0].value, ast.Call):
+                        raise AnalysisError('escape(): branch body is not a single output append')
+                    if s:
+                        tpl = tx.template(body[0].value)
+                        rows.append((s, tpl))
+                        r1.instance({'start_dash': sd, 'index': '>=2' if index == 2 else index, 'class': repr(s),
+                                     'size': s.size(), 'template': tpl},
+                                    key=f'{sd}|{index}|{s!r}|{tpl}')
+                if rest:
+                    raise AnalysisError('escape(): if/elif chain without a final else leaves characters unmapped')
+                table[(sd, index)] = rows
+        return table, special_tpl, tx.dash, fast, chain
+
+    def merged(tab):
+        out = {}
+        for key, rows in tab.items():
+            m = {}
+            for cs, tpl in rows:
+                k_ = tuple(tuple(t) for t in tpl)
+                m[k_] = (m[k_] | cs) if k_ in m else cs
+            out[key] = m
+        return out
+    sym, sym_err = None, None
+    try:
+        sym = symbolic()
+    except AnalysisError as e:
+        sym_err = str(e)
+    itab, itab_err = None, None
+    try:
+        itab = table_by_interpretation(ctx)
+    except AnalysisError as e:
+        itab_err = str(e)
+    if sym is None and itab is None:
+        raise AnalysisError(f'escape(): neither extraction applies - symbolic: {sym_err}; interpreted: {itab_err}')
+    if sym is not None and itab is None:
+        table, special_tpl, dash_char, fast, chain = sym
+        r1.note(f'interpreted cross-check not applicable ({itab_err})')
+    elif sym is not None:
+        itable, ispecial, idash = itab
+        table, special_tpl, dash_char, fast, chain = sym
+        ma, mb = merged(table), merged(itable)
+        if ma != mb or [tuple(t) for t in special_tpl] != [tuple(t) for t in ispecial]:
+            diff = [k for k in ma if ma[k] != mb.get(k)]
+            raise AnalysisError(f'escape(): the symbolically extracted table and the interpreted table disagree (contexts {diff[:2]})')
+        r1.instance({'cross_check': 'symbolic extraction and interpretation over code-point intervals give the same table'},
+                    key='cross-check')
     else:
-        if len(top_if.body) != 1 or not isinstance(top_if.body[0], ast.Expr):
-            raise AnalysisError('escape(): special-case body outside the model')
-        special_call = top_if.body[0].value
-    special_tpl = tx.template(special_call)
-    dash = ord(tx.dash)
-    # any other statement in the function must be initialisation or the final join
-    table = {}
-    for sd in (False, True):
-        for index in (0, 1, 2):
-            dom = ALL
-            if index == 0:
-                dom = CS.of(dash) if sd else ALL - CS.of(dash)
-            rest = dom
-            rows = []
-            for test, body in branches(chain):
-                s = rest if test is None else tx.ev(test, index, sd, rest)
-                rest = rest - s
-                if len(body) != 1 or not isinstance(body[0], ast.Expr) or not isinstance(body[0].value, ast.Call):
-                    raise AnalysisError('escape(): branch body is not a single output append')
-                if s:
-                    tpl = tx.template(body[0].value)
-                    rows.append((s, tpl))
-                    r1.instance({'start_dash': sd, 'index': '>=2' if index == 2 else index, 'class': repr(s),
-                                 'size': s.size(), 'template': tpl},
-                                key=f'{sd}|{index}|{s!r}|{tpl}')
-            if rest:
-                raise AnalysisError('escape(): if/elif chain without a final else leaves characters unmapped')
-            table[(sd, index)] = rows
+        # the shape is not one the symbolic extractor knows: the interpreted table alone carries the argument
+        itable, ispecial, idash = itab
+        table, special_tpl, dash_char, fast, chain = itable, ispecial, idash, [], fn
+        r1.note(f'symbolic extraction not applicable ({sym_err}); table obtained by interpretation over code-point intervals')
+        for (sd, index), rows in table.items():
+            for cs, tpl in rows:
+                r1.instance({'start_dash': sd, 'index': '>=2' if index == 2 else index, 'class': repr(cs), 'size': cs.size(),
+                             'template': tpl}, key=f'{sd}|{index}|{cs!r}|{tpl}')
+    tx.dash = dash_char
     report.extra['escape_table'] = {f'start_dash={k[0]},index={k[1]}': [(repr(s), t) for s, t in v]
                                     for k, v in table.items()}
 
@@ -439,57 +577,51 @@ def run(ctx, report: Report) -> None:
 
     # ---- R4: no partial operation ------------------------------------------------------------------------------
     r4 = report.rule('C10-R4', 'escape() contains no partial operation', floor=4)
-    allowed = {'len', 'enumerate', 'ord', 'join', 'append', 'match', 'fullmatch'} | STR_PREDICATES
-    for c in [n for n in walk_no_nested(fn) if isinstance(n, ast.Call)]:
-        nm = call_name(c).split('.')[-1]
-        r4.instance({'call': unparse(c)[:60], 'total': nm in allowed}, key=unparse(c))
-        if nm not in allowed:
-            r4.violation(f'css_parser.escape call {nm}', mod.where(c),
-                         f'escape() calls {call_name(c)}(), which is not one of the total operations the never-raises '
-                         f'argument is written for ({sorted(allowed)})')
-    for sub in [n for n in walk_no_nested(fn) if isinstance(n, ast.Subscript)]:
-        guarded = unparse(sub) == f'{tx.param}[0]' and f'{tx.len_var} > 0 and' in unparse(
-            mod.parents[mod.parents[sub]]) if mod.parents.get(sub) in mod.parents else False
-        r4.instance({'subscript': unparse(sub), 'guarded_by_length_test': guarded}, key=unparse(sub))
-        if not guarded:
-            r4.violation(f'css_parser.escape subscript {unparse(sub)}', mod.where(sub),
-                         f'escape(): `{unparse(sub)}` is not guarded by a length test (IndexError on the empty string)')
+    allowed = {'len', 'enumerate', 'ord', 'join', 'append', 'match', 'fullmatch', 'startswith', 'endswith'} | STR_PREDICATES
+    todo, seen_f = [('escape', fn)], set()
+    while todo:
+        fname, f_ = todo.pop()
+        if fname in seen_f:
+            continue
+        seen_f.add(fname)
+        for c in [n for n in walk_no_nested(f_) if isinstance(n, ast.Call)]:
+            nm = call_name(c).split('.')[-1]
+            helper = mod.functions.get(call_name(c)) if '.' not in call_name(c) else None
+            ok = nm in allowed or helper is not None
+            r4.instance({'in': fname, 'call': unparse(c)[:60], 'total': ok}, key=f'{fname}|{unparse(c)}')
+            if helper is not None:
+                todo.append((call_name(c), helper))
+            elif not ok:
+                r4.violation(f'css_parser.{fname} call {nm}', mod.where(c),
+                             f'{fname}() calls {call_name(c)}(), which is not one of the total operations the never-raises '
+                             f'argument is written for ({sorted(allowed)})')
+    # the empty identifier: the only input on which `ident[0]` could fail
+    from ..interp import Raised, call_function
+    from ..miniev import Unsupported
+    try:
+        empty = call_function(ctx, 'css_parser.escape', [''], {}, {}, None)
+    except Raised as e:
+        empty = f'raises {e.exc_name}'
+    except Unsupported as e:
+        empty = None
+        r4.note(f'escape("") could not be interpreted ({e}); the syntactic length-guard rule is used instead')
+        for sub in [n for n in walk_no_nested(fn) if isinstance(n, ast.Subscript)]:
+            guarded = tx.len_var is not None and unparse(sub) == f'{tx.param}[0]' and f'{tx.len_var} > 0 and' in unparse(
+                mod.parents[mod.parents[sub]]) if mod.parents.get(sub) in mod.parents else False
+            r4.instance({'subscript': unparse(sub), 'guarded_by_length_test': guarded}, key=unparse(sub))
+            if not guarded:
+                r4.violation(f'css_parser.escape subscript {unparse(sub)}', mod.where(sub),
+                             f'escape(): `{unparse(sub)}` is not guarded by a length test (IndexError on the empty string)')
+    r4.instance({'escape("")': empty}, key='empty')
+    r4.obligation(empty in ('', None))
+    if empty not in ('', None):
+        r4.violation('css_parser.escape empty string', mod.where(fn),
+                     f'escape("") gives {empty!r} instead of "": a subscript or comparison is not guarded by a length test')
 
     # ---- R5: pattern text reaches the tokenizer unmodified -----------------------------------------------------
     r5 = report.rule('C10-R5', 'pattern text travels from compile() to the tokenizer unmodified', floor=3)
-    imod, cfn = src.func('__init__.compile')
-    hops = []
-    for c in [n for n in ast.walk(cfn) if isinstance(n, ast.Call)]:
-        if call_name(c).endswith('_cached_css_compile'):
-            hops.append(('compile -> _cached_css_compile', imod, c, c.args[0] if c.args else None, cfn.args.args[0].arg))
-    pmod, ccfn = src.func('css_parser._cached_css_compile')
-    for c in [n for n in ast.walk(ccfn) if isinstance(n, ast.Call)]:
-        if src.resolve_class_ref(pmod, c.func) == 'css_parser.CSSParser':
-            hops.append(('_cached_css_compile -> CSSParser', pmod, c, c.args[0] if c.args else None, ccfn.args.args[0].arg))
-    _, init = src.func('css_parser.CSSParser.__init__')
-    sel_param = init.args.args[1].arg
-    stored = [st for st in ast.walk(init) if isinstance(st, ast.Assign) and unparse(st.targets[0]) == 'self.pattern']
-    if len(hops) < 2 or len(stored) != 1:
-        raise AnalysisError('pattern hand-over chain compile -> _cached_css_compile -> CSSParser not found')
-    for label, m_, c, arg, pname in hops:
-        ok = isinstance(arg, ast.Name) and arg.id == pname
-        r5.instance({'hop': label, 'argument': unparse(arg) if arg is not None else None, 'unmodified': ok}, key=label)
-        r5.obligation(ok)
-        if not ok:
-            r5.violation(f'{label} argument', m_.where(c),
-                         f'{label}: the pattern is passed as `{unparse(arg) if arg is not None else "?"}`, not as the '
-                         f'caller\'s text itself: escape() output (e.g. a trailing escaped space) is altered before parsing')
-    v = stored[0].value
-    ok = (isinstance(v, ast.Name) and v.id == sel_param) or (
-        isinstance(v, ast.Call) and isinstance(v.func, ast.Attribute) and v.func.attr == 'replace'
-        and isinstance(v.func.value, ast.Name) and v.func.value.id == sel_param
-        and [inv.folder.try_ev('css_parser', a) for a in v.args] == ['\x00', '\ufffd'])
-    r5.instance({'hop': 'CSSParser.__init__ self.pattern', 'value': unparse(v), 'nul_replacement_only': ok}, key='store')
-    r5.obligation(ok)
-    if not ok:
-        r5.violation('CSSParser.__init__ self.pattern', pmod.where(stored[0]),
-                     f'CSSParser stores the pattern as `{unparse(v)}`; only NUL -> U+FFFD is allowed between the API '
-                     f'and the tokenizer')
+    from .sem import pattern_handover_table
+    pattern_handover_table(ctx, r5)
 
     # ---- R6 ----------------------------------------------------------------------------------------------------
     r6 = report.rule('C10-R6', 'an escaped identifier reaches the IR through one decode and position-based unquoting only', floor=8)
